@@ -324,7 +324,9 @@ type InvalidError struct {
 	Msg string
 }
 
-func (e *InvalidError) Error() string { return fmt.Sprintf("resp: invalid at offset %d: %s", e.Off, e.Msg) }
+func (e *InvalidError) Error() string {
+	return fmt.Sprintf("resp: invalid at offset %d: %s", e.Off, e.Msg)
+}
 
 func invalid(off int, format string, a ...any) error {
 	return &InvalidError{Off: off, Msg: fmt.Sprintf(format, a...)}
@@ -428,9 +430,9 @@ func decode(b []byte, off int, depth int) (Value, int, error) {
 		if n == -1 {
 			return Value{Kind: Bulk, Null: true}, next, nil
 		}
-		if int64(len(b)-next) < n+2 {
+		if rem := int64(len(b) - next); n > rem-2 {
 			// incomplete, unless what is there already contradicts the trailer
-			if int64(len(b)-next) == n+1 && b[len(b)-1] != '\r' {
+			if n == rem-1 && b[len(b)-1] != '\r' {
 				return Value{}, 0, invalid(len(b)-1, "bulk body not followed by CRLF")
 			}
 			return Value{}, 0, ErrIncomplete
@@ -449,7 +451,7 @@ func decode(b []byte, off int, depth int) (Value, int, error) {
 		if !ok || n < 0 {
 			return Value{}, 0, invalid(off+1, "array count %q", line)
 		}
-		if n > int64(len(b)) { // each element needs at least 1 byte
+		if n > int64(len(b)-next) { // each element needs at least 1 byte
 			return Value{}, 0, ErrIncomplete
 		}
 		v := Value{Kind: Array, Elems: make([]Value, 0, n)}
